@@ -425,6 +425,20 @@ fn families_of(prop: &str, tier: Tier) -> Vec<Cfg> {
             c.max_conns = 3;
             c.max_reqs = 3;
             c.dev = 2;
+            // a transport that takes a few bytes per write (at no cost in deviations) and whose flushes may stall, with
+            // the caller giving up at the stall and using the connection again
+            let mut cf = Cfg::base("C02-fragmenting-transport-with-stalled-flushes");
+            cf.props = vec!["C02"];
+            cf.ops = vec![OpK::Pub1, OpK::Poll, OpK::Drive, OpK::DropConn];
+            cf.io = IoMenu::benign();
+            cf.io.max_write = 5;
+            cf.io.write_pending = true;
+            cf.io.flush_pending = true;
+            cf.cancel = true;
+            cf.max_ops = if q { 6 } else { 7 };
+            cf.max_conns = 2;
+            cf.max_reqs = 3;
+            cf.dev = 2;
             // the broker's Maximum Packet Size differs from connection to connection
             let mut d = Cfg::base("C02-maximum-packet-size-changes-between-connections");
             d.props = vec!["C02"];
@@ -487,7 +501,7 @@ fn families_of(prop: &str, tier: Tier) -> Vec<Cfg> {
             wr.max_conns = if q { 2 } else { 3 };
             wr.max_reqs = 4;
             wr.dev = 1;
-            vec![a, b, c, d, e, f, g, wr]
+            vec![a, b, c, cf, d, e, f, g, wr]
         }
         "C03" => {
             let mut a = Cfg::base("C03-qos2-orders-and-crashes");
